@@ -95,6 +95,15 @@ void prop_algebra(Tape &t, Ctx &c) {
     typedef ab::builtin<V2> B2;
     amgcl::mpi::distributed_matrix<B2> dC(dA);
     ptrdiff_t c_gr = dC.glob_rows(), c_gc = dC.glob_cols(), c_gz = dC.glob_nonzeros();
+    // the copy is a full distributed matrix: its parts assemble to A, and it is a valid operand of transpose / product
+    // (small integer values: exact in single precision as well)
+    Dense<cplx> asmC = assemble<V>(dC, n, m, rdom[me], nz, cerr_);
+    ptrdiff_t c_shift = dC.loc_col_shift();
+    amgcl::mpi::distributed_matrix<B2> dCB(dB);
+    auto dCP = amgcl::mpi::product(dC, dCB);
+    Dense<cplx> asmCP = assemble<V>(*dCP, n, p, rdom[me], nz, cerr_);
+    auto dCT = amgcl::mpi::transpose(dC);
+    Dense<cplx> asmCT = assemble<V>(*dCT, m, n, cdom[me], nz, cerr_);
     dC.move_to_backend();
     dA.move_to_backend();
     std::vector<V> xl(xg.begin() + cdom[me], xg.begin() + cdom[me + 1]);
@@ -138,6 +147,10 @@ void prop_algebra(Tape &t, Ctx &c) {
         Dense<cplx> DT(m, n); for (ptrdiff_t i = 0; i < n; ++i) for (ptrdiff_t j = 0; j < m; ++j) DT(j, i) = std::conj(DA(i, j));
         require_equal(asmT, DT, "mpi::transpose");
         require_equal(asmP, matmul(DA, DB), "mpi::product");
+        VF_REQUIRE(c_shift == cdom[me], "backend copy: loc_col_shift() = " << c_shift << ", the column block of this rank starts at " << cdom[me]);
+        require_equal(asmC, DA, "copy of the distributed matrix to another backend, assembled from its local/remote parts");
+        require_equal(asmCP, matmul(DA, DB), "mpi::product of two backend copies");
+        require_equal(asmCT, DT, "mpi::transpose of a backend copy");
         require_equal(asmK, DA, "build-state parts kept by move_to_backend(keep_src = true)");
         require_equal(asmKT, DT, "mpi::transpose after move_to_backend(keep_src = true)");
         require_equal(asmKP, matmul(DA, DB), "mpi::product after move_to_backend(keep_src = true)");
